@@ -147,7 +147,8 @@ def shq(s):
 # declarations
 # =====================================================================================
 class Shim:
-    def __init__(self, name, ret, ins, outs, body, note=''):
+    def __init__(self, name, ret, ins, outs, body, note='', tmask=None):
+        self.tmask = dict(tmask or {})   # translator validation only: {parameter: bit mask applied to its sampled inputs} (e.g. a step count)
         self.name = name          # C symbol
         self.ret = ret            # C++ scalar type or 'void'
         self.ins = ins            # [(cpptype, name)]
@@ -176,10 +177,10 @@ class Driver:
         self.shims = {}
         self.order = []
 
-    def shim(self, name, ret, ins, body, outs=(), note=''):
+    def shim(self, name, ret, ins, body, outs=(), note='', tmask=None):
         if name in self.shims:
             raise Infra('duplicate shim ' + name)
-        s = Shim(name, ret, list(ins), list(outs), body, note)
+        s = Shim(name, ret, list(ins), list(outs), body, note, tmask)
         self.shims[name] = s
         self.order.append(name)
         return s
@@ -225,7 +226,7 @@ class Contract:
 
     def __init__(self, fn, real, requires=(), ensures=(), assigns=None, build=None, unwind=1, backends=('sat',),
                  replace=(), kind='F', bounded=None, timeout=300, sig=None, tier='quick', uses=(), flags=(),
-                 poison_flags=False, note='', uf_float=(), rel=None, assumed_ensures=None, forbid_calls=None):
+                 poison_flags=False, note='', uf_float=(), rel=None, assumed_ensures=None, forbid_calls=None, loops=()):
         self.fn, self.real = fn, real
         self.requires, self.ensures = list(requires), list(ensures)
         self.assigns = assigns
@@ -243,6 +244,10 @@ class Contract:
         self.assumed_ensures = list(assumed_ensures) if assumed_ensures else None
         self.rel = rel   # (other build tag, [function names]): extracted from another build with prefix R_ (relational contracts)
         self.note = note
+        # loop contracts, one string per single-block loop of the extracted function in order of appearance: CBMC clauses
+        # (__CPROVER_loop_invariant(...) __CPROVER_decreases(...)) over the shim's parameter names and PHI(k), the k-th phi of the loop
+        # header; closed by goto-instrument --apply-loop-contracts (inductive: no unwinding bound on that loop)
+        self.loops = list(loops)
 
 
 class Finding:
@@ -441,6 +446,9 @@ def _tcheck_build(b, workdir, seed, n_inputs, log):
             s = b.driver.shims[n].view_sig()
             stats['shims'] += 1
             cols = [([rnd.randint(0, 1) for _ in range(n_inputs)] if cppt == 'bool' else gen_inputs(t, rnd, n_inputs)) for (t, _), cppt in zip(s['ins'], s['cpp_ins'])]
+            tm = b.driver.shims[n].tmask
+            if tm:
+                cols = [[v & tm[nm_]for v in col] if nm_ in tm else col for col, (t_, nm_) in zip(cols, s['ins'])]
             k = n_inputs if s['ins'] else 1
             stats['inputs'] += k
             L.append('{ /* %s */ unsigned long cmp0_%s = n_cmp;' % (n, n))
@@ -716,6 +724,8 @@ def run_contract_job(job):
         cmd = ['goto-instrument', '--dfcc', 'h_entry', '--enforce-contract', fnc]
         for r in job.get('replace', []):
             cmd += ['--replace-call-with-contract', r]
+        if job.get('loops'):
+            cmd += ['--apply-loop-contracts']
         cmd += [base + '.l.gb', base + '.i.gb']
         rc, so, se, dt = sh(cmd, timeout=600)
         if rc != 0:
@@ -765,6 +775,7 @@ def run_contract_job(job):
             clauses = {}
             safety = []
             unwind_bad = False
+            loops_seen = []
             for p in r['props']:
                 desc = p.get('description', '')
                 pid = p.get('property', '')
@@ -776,12 +787,30 @@ def run_contract_job(job):
                 elif 'unwinding assertion' in desc or '.unwind.' in pid:
                     if st != 'SUCCESS':
                         unwind_bad = True
+                elif re.search(r'\.loop_(invariant_base|invariant_step|decreases|assigns|step_unwinding)\.', pid):
+                    loops_seen.append((pid, desc[:200], st))
                 else:
                     safety.append((pid, desc[:200], st))
             if unwind_bad:
                 out['status'] = 'error'
                 out['detail'] = 'unwinding assertion failed with --unwind %d' % job['unwind']
                 break
+            if job.get('loops'):
+                # loop-contract obligations: a failure means "the stated invariant is not inductive for this code" - undecided, never a verdict
+                # (the havocked loop state of such a counterexample is not an execution); the bounded twin of the contract decides violations
+                kinds = {k: [x for x in loops_seen if ('.loop_%s.' % k) in x[0]] for k in ('invariant_base', 'invariant_step', 'decreases')}
+                if not kinds['invariant_base'] or not kinds['invariant_step']:
+                    out['status'] = 'error'
+                    out['detail'] = 'loop contract silently dropped: no loop_invariant_base/step obligations were generated'
+                    break
+                badl = [x for x in loops_seen if x[2] != 'SUCCESS']
+                if badl:
+                    out['status'] = 'error'
+                    out['detail'] = 'loop contract obligation not established (undecided, not a verdict): %s %s' % (badl[0][0], badl[0][1])
+                    break
+                for k, items in kinds.items():
+                    if items:
+                        safety.append((items[0][0], 'loop-contract %s (%d checks, goto-instrument --apply-loop-contracts)' % (k, len(items)), 'SUCCESS'))
             out['clauses'] = clauses
             out['safety'] = safety
             out['backend'] = be_used
